@@ -206,6 +206,8 @@ def _worker(arg):
         fp0 = _fingerprint_modules()
         _CHECK.run_shard(desc, acc)
         fp1 = _fingerprint_modules()
+        for v in acc.violations.values():
+            v['shard'] = desc
         if fp0 != fp1:
             # not a violation by itself (a harmless cache also changes module state): recorded in the evidence, and the
             # oracles - which judge every case against a reference that is independent of earlier cases - decide
@@ -257,6 +259,7 @@ def explore(check, jobs=NPROC):
         for sig, v in a.violations.items():
             m = merged.violations.setdefault(sig, {'count': 0, 'cases': []})
             m['count'] += v['count']
+            m.setdefault('shard', v.get('shard'))
             for c in v['cases']:
                 if len(m['cases']) < MAX_STORED_PER_SIG:
                     m['cases'].append(c)
@@ -271,6 +274,23 @@ def explore(check, jobs=NPROC):
     merged.shard_digests = digests
     merged.nshards = len(shards)
     return merged
+
+
+def _to_jsonable(x):
+    if isinstance(x, (tuple, list)):
+        return {'__seq__': 'tuple' if isinstance(x, tuple) else 'list', 'items': [_to_jsonable(i) for i in x]}
+    if isinstance(x, bytes):
+        return {'__bytes__': x.hex()}
+    return x
+
+
+def _from_jsonable(x):
+    if isinstance(x, dict) and '__seq__' in x:
+        items = [_from_jsonable(i) for i in x['items']]
+        return tuple(items) if x['__seq__'] == 'tuple' else items
+    if isinstance(x, dict) and '__bytes__' in x:
+        return bytes.fromhex(x['__bytes__'])
+    return x
 
 
 def load_known():
@@ -305,7 +325,13 @@ def main(check_cls):
     if args.replay:
         with open(args.replay) as f:
             rec = json.load(f)
-        bad = check.replay(rec['case'])
+        if rec.get('replay_shard') is not None:
+            check.tier = rec.get('tier', check.tier)
+            acc = Acc()
+            check.run_shard(_from_jsonable(rec['replay_shard']), acc)
+            bad = [(sig, v['cases'][0][1]) for sig, v in acc.violations.items() if sig == rec['signature']]
+        else:
+            bad = check.replay(rec['case'])
         for sig, detail in bad:
             print('REPLAY-SIG', sig)
             print('  detail:', json.dumps(detail, default=repr)[:2000])
@@ -321,7 +347,8 @@ def main(check_cls):
     wall = time.time() - t0
 
     known = {(k['property'], k['signature']): k for k in load_known() if k.get('status') == 'known'}
-    os.makedirs(os.path.join(VERIF, 'replays'), exist_ok=True)
+    replay_dir = os.environ.get('VERIF_REPLAY_DIR') or os.path.join(VERIF, 'replays')
+    os.makedirs(replay_dir, exist_ok=True)
     new_violations = 0
     confirmed = 0
     known_seen = []
@@ -336,7 +363,7 @@ def main(check_cls):
             continue
         case, detail = v['cases'][0]
         safe = ''.join(c if c.isalnum() or c in '-_.' else '_' for c in sig)[:80]
-        path = os.path.join(VERIF, 'replays', f'{check.pid}-{safe}.json')
+        path = os.path.join(replay_dir, f'{check.pid}-{safe}.json')
         with open(path, 'w') as f:
             json.dump({'property': check.pid, 'signature': sig, 'count': v['count'], 'case': case,
                        'detail': detail, 'tier': args.tier}, f, indent=1, default=repr)
@@ -352,6 +379,11 @@ def main(check_cls):
                       f'the execution depends on what ran before it. case={json.dumps(case, default=repr)[:400]}')
                 # An order-dependent result IS a property-relevant defect of the code when the check's
                 # cases are independent by construction; report as a violation of its own kind.
+                # make the replay file reproduce it: re-run the whole shard (the earlier executions) in order
+                with open(path, 'w') as f:
+                    json.dump({'property': check.pid, 'signature': sig, 'count': v['count'], 'case': case, 'detail': detail,
+                               'tier': args.tier, 'replay_shard': _to_jsonable(v.get('shard')),
+                               'note': 'order-dependent: the case alone passes in a fresh process; replay re-runs its shard'}, f, indent=1, default=repr)
                 new_violations += 1
                 lines.append(f'VIOLATION property={check.pid} replay={path}')
                 lines.append(f'  signature={sig} (in-pool only: result depends on earlier executions) count={v["count"]}')
